@@ -13,7 +13,7 @@ TECHNIQUE = ('runtime monitoring: three-way differential on every batch (cached 
 RULE = ('random-weight models built by the real build_net (tiny VGG-shaped front end) and loaded by the real TransformerEngineLineOCR constructor: decoder depth 1-3, heads 1-4, width 16-64, '
         'end-of-line bias varied so that lines end at different steps or hit the length cap; sequences of 3-4 batches with equal and different batch sizes (1-4) and widths (64/128/256) on one '
         'model instance; transcribe_batch and run_ocr. non-trivial = batch with >= 2 lines decoded on a model that has decoded a different batch before; distinct = hash of (model, batches)')
-ASSUMPTIONS = ['float32 logits compared within 5e-4 absolute (largest difference on the unchanged tree is reported as observed maximum)',
+ASSUMPTIONS = ['float32 logits compared within 2e-4 relative to the largest |logit| of the batch (largest relative difference on the unchanged tree is reported as observed maximum)',
                'steps at which the arg-max margin is below 1e-3 make later steps of that line incomparable (decoding may legitimately branch): skipped from there on',
                'termination is decided on decoding steps: at most W//4 + 2']
 N = {'quick': 40, 'thorough': 3000}
@@ -22,7 +22,8 @@ REQUIRED = ['batches', 'cached_vs_uncached', 'cached_vs_teacher_forced', 'fresh_
             'batches_after_different_batch', 'lines_hit_length_cap', 'lines_ended', 'run_ocr_batches']
 SHARDS = {'quick': 8, 'thorough': 16}
 TIMEOUT = {'quick': 1200, 'thorough': 10800}
-TOL = 5e-4
+TOL_REL = 2e-4      # relative to the largest |logit| of the batch (float32 round-off through layer norms / softmax over up to 65 steps: the largest
+                    # relative difference seen on 10 000 batches of the unchanged tree is 3.7e-5; a stale or mis-sliced cache shifts logits by O(0.1 .. 10))
 
 
 def setup(ctx):
@@ -146,6 +147,7 @@ def check(case, mon, ctx):
             mon.count('batches_after_same_shape_batch')
         prev_shape = (b['n'], b['w'])
         steps = l.shape[1]
+        TOL = TOL_REL * max(5.0, float(l.abs().max()))
         if steps > b['w'] // 4 + 2:
             mon.violation('decoding-terminates-within-the-length-cap', dict(w, steps=steps, cap=b['w'] // 4 + 2))
         for p in problems[:1]:
@@ -153,7 +155,8 @@ def check(case, mon, ctx):
         amb = first_ambiguous_step(l)
         lim = min(amb)      # steps before the first near-tie of any line are comparable across execution modes
         d_unc = maxdiff(l[:, :lim], l2[:, :lim]); d_tf = maxdiff(l[:, :lim], full[:, :lim]); d_fresh = maxdiff(l[:, :lim], l3[:, :lim])
-        mon.observe_max('cached_vs_uncached', d_unc); mon.observe_max('cached_vs_teacher_forced', d_tf); mon.observe_max('fresh_vs_history', d_fresh)
+        scale = max(5.0, float(l.abs().max()))
+        mon.observe_max('cached_vs_uncached_rel', d_unc / scale); mon.observe_max('cached_vs_teacher_forced_rel', d_tf / scale); mon.observe_max('fresh_vs_history_rel', d_fresh / scale)
         mon.count('cached_vs_uncached'); mon.count('cached_vs_teacher_forced'); mon.count('fresh_vs_history')
         if lim < steps:
             mon.skip_ambiguous('argmax-near-tie')
@@ -167,7 +170,7 @@ def check(case, mon, ctx):
             n = min(ls_.shape[1], l.shape[1], amb[k])
             d = float((ls_[0, :n] - l[k, :n]).abs().max()) if n else 0.0
             mon.count('single_vs_batch_lines')
-            mon.observe_max('single_vs_batch', d)
+            mon.observe_max('single_vs_batch_rel', d / scale)
             if d > TOL:
                 mon.violation('independent-of-batch-mates', dict(w, line=k, max_abs_diff=d, steps_compared=n))
             if amb[k] >= l.shape[1] and os_[0].tolist() != o[k].tolist():
@@ -199,12 +202,12 @@ def check(case, mon, ctx):
                 dec_b, lg_b = eng.run_ocr(lines.copy())
                 singles = [eng.run_ocr(lines[k:k + 1].copy()) for k in range(b['n'])]
             mon.count('run_ocr_batches')
-            if dec != dec_b or float(np.abs(lg - lg_b).max()) > TOL:
+            if dec != dec_b or float(np.abs(lg - lg_b).max()) > TOL_REL * max(5.0, float(np.abs(lg).max())):
                 mon.violation('independent-of-earlier-batches', dict(w, via='run_ocr twice on the same batch', first=dec, second=dec_b))
             amb2 = first_ambiguous_step(torch.from_numpy(lg))
             for k, (d1, l1) in enumerate(singles):
                 n = min(l1.shape[1], lg.shape[1], amb2[k])
-                if n and float(np.abs(l1[0, :n] - lg[k, :n]).max()) > TOL:
+                if n and float(np.abs(l1[0, :n] - lg[k, :n]).max()) > TOL_REL * max(5.0, float(np.abs(lg).max())):
                     mon.violation('independent-of-batch-mates', dict(w, via='run_ocr', line=k))
                 if amb2[k] >= lg.shape[1] and d1[0] != dec[k]:
                     mon.violation('independent-of-batch-mates', dict(w, via='run_ocr', line=k, alone=d1[0], in_batch=dec[k]))
